@@ -583,6 +583,15 @@ VARIANTS += [
     M("kahn-emit-successor", TOPO, "        result.append(node_from)\n\n        for node_to in graph[node_from]:\n            indeg[node_to] -= 1\n", "        for node_to in graph[node_from]:\n            indeg[node_to] -= 1\n            result.append(node_to)\n", "KAHN-LOOP"),
     T("twin-kahn-pop-right", TOPO, "node_from = starts.popleft()", "node_from = starts.pop()"),
 ]
+
+VARIANTS += [
+    M("exh-skip-root", EXH, "        while parent_species is not None:", "        while parent_species.up is not None:", "ENUM-PLACEMENTS"),
+    M("exh-transfer-test-swapped", EXH, "            if species_lca.is_ancestor_of(other_target, transfer_target):", "            if species_lca.is_ancestor_of(transfer_target, other_target):", "ENUM-PLACEMENTS"),
+    M("exh-transfer-includes-lca", EXH, "            while transfer_species != lca:", "            while transfer_species != lca.up:", "ENUM-PLACEMENTS"),
+    M("exh-transfer-one-side", EXH, "            (left_species, right_species),\n            (right_species, left_species),\n", "            (left_species, right_species),\n", "ENUM-PLACEMENTS"),
+    M("exh-transfer-no-test", EXH, "            if species_lca.is_ancestor_of(other_target, transfer_target):\n                continue\n", "", "ENUM-PLACEMENTS"),
+    T("twin-exh-comparable-test", EXH, "            if species_lca.is_ancestor_of(other_target, transfer_target):", "            if species_lca.is_comparable(other_target, transfer_target):"),
+]
 # the CLI twin needs a second edit (label in reconcile)
 for _v in VARIANTS:
     if _v.name == "twin-cli-label-in-reconcile":
